@@ -418,6 +418,7 @@ CHECKS["C11"] = {
     "units": [
         {"name": "exchanges", "run": "^TestC11Exchanges$", "kind": "rapid", "checks": {"quick": 3000, "thorough": 60000}, "shards": {"quick": 8, "thorough": 16}},
         {"name": "body-or-error", "run": "^TestC11BodyOrError$", "kind": "plain"},
+        {"name": "caller-connection-header", "run": "^TestC11CallerConnectionHeader$", "kind": "plain"},
     ],
 }
 
